@@ -41,6 +41,10 @@ fn table(prop: &str) -> Option<(CountFn, GenFn, RunFn)> {
         "C01" => (c01::count, c01::gen, c01::run),
         "C02" => (c02::count, c02::gen, c02::run),
         "C03" => (c03::count, c03::gen, c03::run),
+        "C10" => (c10::count, c10::gen, c10::run),
+        "C11" => (c11::count, c11::gen, c11::run),
+        "C12" => (c12::count, c12::gen, c12::run),
+        "C13" => (c13::count, c13::gen, c13::run),
         "C14" => (c14::count, c14::gen, c14::run),
         "C15" => (c15::count, c15::gen, c15::run),
         "C16" => (c16::count, c16::gen, c16::run),
